@@ -35,6 +35,11 @@ SQFS_COMPRESSOR compressor_get_default(void)
 			sqfs_drop(temp);
 			return cmp_ids[i];
 		}
+
+		/* the compressor is available, creating an instance failed
+		   for another reason. Do not silently pick a different one. */
+		if (ret != SQFS_ERROR_UNSUPPORTED)
+			return cmp_ids[i];
 	}
 
 #ifdef WITH_LZO
